@@ -4,17 +4,19 @@
 
 source  : /repo/src/tensora/codegen/_ir_to_c.py, _type_to_c.py  -> coq/gen/IrToC.v (strings)
 model   : coq/model/CPrint.v (tokens), tied through the C lexer coq/model/CLexer.v
-proof   : coq/proofs/GenCPrint_equiv.v, statements coq/props/TIE_cprint.v, doc design.d/TIE_cprint.md
+proof   : coq/proofs/GenCPrint_equiv.v, GenCStruct_equiv.v, GenCStruct_fun.v (all names: GenCPrint_all.v), statements coq/props/TIE_cprint.v, doc design.d/TIE_cprint.md
 """
 TIE_EXTRA = {
     "cprint": {
         "gen": ["IRAst.v", "IrToC.v"],
-        "vo": "proofs/GenCPrint_equiv.vo",
+        "vo": "proofs/GenCPrint_all.vo",
         "theorems": ["tie_cprint_lex", "tie_cprint_equiv", "gen_type_equiv", "tie_cprint_stmt_equiv",
                      "tie_cprint_derives", "tie_cprint_derives_prec", "tie_cprint_derives_exact",
-                     "tie_cprint_parses", "tie_cprint_stmt_derives"],
-        "source": "codegen/_ir_to_c.py (parens, ir_to_c_expression, ir_to_c_declaration, one-line ir_to_c_statement), "
+                     "tie_cprint_parses", "tie_cprint_stmt_derives",
+                     "sparse_flats", "sparse_cprint_stmts", "gen_struct_equiv", "gen_struct_none",
+                     "gen_function_equiv", "gen_module_equiv"],
+        "source": "codegen/_ir_to_c.py (all of it: expressions, statements incl. block / branch / loop layout, function definitions, module), "
                   "codegen/_type_to_c.py",
-        "model": "coq/model/CPrint.v (cprint, cprint_stmt; spec/CGrammar.v type_tokens) through the C lexer coq/model/CLexer.v",
+        "model": "coq/model/CPrint.v (cprint, cprint_stmt; spec/CGrammar.v type_tokens) and coq/model/CStruct.v (skel, cprint_stmts, cprint_function, cprint_module; structure parser sparse) through the C lexer coq/model/CLexer.v",
     },
 }
